@@ -9,6 +9,7 @@ import (
 	"encoding/xml"
 	"errors"
 	"fmt"
+	"io"
 	"io/ioutil"
 	"strconv"
 	"strings"
@@ -223,8 +224,11 @@ func (c *Conf) InitFromBytes(content []byte) error {
 	nodeStack = append(nodeStack, c.root)
 	for {
 		currNode := nodeStack[len(nodeStack)-1]
-		token, _ := xmlDecoder.Token()
+		token, err := xmlDecoder.Token()
 		if token == nil {
+			if err != nil && err != io.EOF {
+				return fmt.Errorf("parse config error: %v", err)
+			}
 			break
 		}
 		switch t := token.(type) {
